@@ -227,9 +227,10 @@ func (e StdEng) reduce(
 
 		retVal = a
 		dimsReduced := 0
-		sort.Slice(along, func(i, j int) bool { return along[i] < along[j] })
+		sorted := append([]int(nil), along...) // the caller's slice is not ours to reorder
+		sort.Ints(sorted)
 
-		for _, axis := range along {
+		for _, axis := range sorted {
 			axis -= dimsReduced
 			dimsReduced++
 			if axis >= retVal.Dims() {
